@@ -146,6 +146,8 @@ def run(tier: str, seed: int) -> int:
     import jax.numpy as _jnp
     import exponax as _ex
     session.run_for(run_, tier, seed, _ex, _jnp, ['spectrum'], PID)
+    if tier != "quick":
+        session.exhaustive(run_, PID)          # the complete state graph of a tiny instance of the composed machine
     from .. import sessiontrace   # the other direction: driver-chosen sessions executed by the library, every returned state validated by TLC (Trace_Session.tla)
     sessiontrace.run_for(run_, tier, seed, _ex, _jnp, ['spectrum'], PID)
     return run_.finish()
